@@ -21,7 +21,7 @@ import (
 
 func TestMain(m *testing.M) { drv.Main(m) }
 
-const rule = "standalone epochs keeper on an in-memory multistore: 1-4 timers (durations 1ns..30d, start before/at/after the first block, some already counting as after a genesis import, with a recorded start height of 0, below or far above the chain height), 1-4 subscribers in MultiEpochHooks with a generated outcome table (succeed / return error / panic string / panic error / runtime panic / out-of-gas) and 0-3 writes before the outcome, block-time sequences with gaps 0, 1ns, to the exact epoch end -1ns/0/+1ns, several epochs, days; oracle: per-timer reference model (pure function of the block times) for epoch number/start time/started flag after every block, the exact per-timer signal sequence as observed by the subscribers, store contents == writes of exactly the successful invocations, out-of-gas propagates out of BeginBlocker; non-trivial = a multi-epoch gap and a failing subscriber with partial writes occurred; distinct by history hash"
+const rule = "standalone epochs keeper on an in-memory multistore: 1-4 timers (durations 1ns..30d, start before/at/after the first block, some already counting as after a genesis import, with a recorded start height of 0, below or far above the chain height), 1-4 subscribers in MultiEpochHooks with a generated outcome table (succeed / return error / panic string / panic error / runtime panic / gas-meter panic that is not out-of-gas / out-of-gas) and 0-3 writes before the outcome, block-time sequences with gaps 0, 1ns, to the exact epoch end -1ns/0/+1ns, several epochs, days; oracle: per-timer reference model (pure function of the block times) for epoch number/start time/started flag after every block, the exact per-timer signal sequence as observed by the subscribers, store contents == writes of exactly the successful invocations, out-of-gas propagates out of BeginBlocker; non-trivial = a multi-epoch gap and a failing subscriber with partial writes occurred; distinct by history hash"
 
 var base = time.Date(2030, 1, 1, 0, 0, 0, 0, time.UTC)
 
@@ -34,6 +34,7 @@ const (
 	oPanicErr
 	oPanicRuntime
 	oOOG
+	oPanicNegGas // a gas-meter panic that is NOT an out-of-gas condition (more gas refunded than consumed)
 )
 
 type call struct {
@@ -105,6 +106,11 @@ func (s sub) run(ctx sdk.Context, kind, id string, n int64) error {
 		var m map[string]int
 		m["x"] = 1 // runtime.Error
 		return nil
+	case oPanicNegGas:
+		if nw > 0 {
+			w.failWithWrites = true
+		}
+		panic(storetypes.ErrorNegativeGasConsumed{Descriptor: "subscriber refunded more gas than it consumed"})
 	default:
 		w.oogHit = true
 		panic(storetypes.ErrorOutOfGas{Descriptor: "subscriber ran out of gas"})
@@ -141,7 +147,7 @@ func TestPropEpochs(t *testing.T) {
 			tab := make([]outcome, 6)
 			wr := make([]int, 6)
 			for j := range tab {
-				o := rapid.IntRange(0, 11).Draw(rt, fmt.Sprintf("out%d_%d", i, j))
+				o := rapid.IntRange(0, 12).Draw(rt, fmt.Sprintf("out%d_%d", i, j))
 				switch {
 				case o <= 5:
 					tab[j] = oOK
@@ -149,6 +155,8 @@ func TestPropEpochs(t *testing.T) {
 					tab[j] = outcome(o - 5) // err / panics
 				case o == 10 && oogAllowed:
 					tab[j] = oOOG
+				case o == 12:
+					tab[j] = oPanicNegGas
 				default:
 					tab[j] = oErr
 				}
